@@ -25,8 +25,11 @@ def run(ctx):
     res.rule("C01-R6", "the decoder accepts what the encoder sends: the payload validators reject exactly the protocol's error conditions (C04-R3: CAN / "
                         "CAN-FD error flags and error position, Ethernet error bits, tested at their wire positions) — a validator that also tests an "
                         "informational bit (BRS, ESI, …) turns well-formed packets into invalid ones on the way back")
+    res.rule("C01-R7", "tagged with the encoder's ids, version and message type of the batch: wherever a packet's raw CMP header enters the frame template "
+                        "(or a frame), device id and stream id are overridden from the encoder's members afterwards, the raw header carries the packet's "
+                        "version and message type on every path, every frame is a copy of the template, and changing an id invalidates the template (C09-R3)")
     res.not_decided += ["byte equality of decoded and original packets over all batches x frame sizes (run-time values)",
-                        "tagging with the encoder's ids (C09-R3), mixed batches (C08-R3), layout premises (C12), decoder premises (C04/C05)"]
+                        "mixed batches (C08-R3), layout premises (C12), decoder premises (C04/C05)"]
     n1 = E.rule_segment_source_advances(res, "C01-R1", m)
     E.rule_header_tables_agree(res, "C01-R2", m)
     E.rule_one_length(res, "C01-R3", m)
@@ -35,6 +38,8 @@ def run(ctx):
     E.rule_flag_table(res, "C01-R5", m)
     E.rule_writes_inside_frame(res, "C01-R5", m)  # chunk = min(free - 16, remaining) at full width: a packet that fits is not cut in pieces
     res.floor("C01-R5", 6)
+    E.rule_identity(res, "C01-R7", m, identity_only=True)
+    res.floor("C01-R7", 6)
     dm = D.DecodeModel(fb)
     D.rule_accept_guard(res, "C01-R4", dm)
     D.rule_reject_reasons(res, "C01-R4", dm)
